@@ -304,3 +304,17 @@ def c09_mutual_close_deadlock(rp):         # fixed 03faaad
 def c09_orphan_session(rp):                # fixed cd5d87d
     return (rp.get('kind') == 'seq' and rp.get('problem') == 'order' and 'no connection_lost' in rp.get('what', '')
             and any(o[0] in ('conn_abort', 'conn_close') for o in rp.get('ops', [])))
+
+
+def c17_address_pattern_port(rp):           # fixed 9f68483: lookup with a port, file has an undecorated address entry
+    import ipaddress
+
+    def is_addr(c):
+        try:
+            ipaddress.ip_address(c.lstrip('!'))
+            return True
+        except ValueError:
+            return False
+    return (rp.get('kind') == 'kh_address_pattern_port' and bool((rp.get('query') or [0, 0, 0])[2]) and
+            any(is_addr(c) for ln in rp.get('lines', []) if isinstance(ln, dict) and not ln.get('skip') and not ln.get('hashed')
+                for c in ln.get('pattern', '').split(',')))
